@@ -1,7 +1,8 @@
 /-
-  Lemmas for C15: without a timeout nothing ever arms a deadline and serving never stops by itself;
-  at most one open listener per address, so closing the served listener frees the address;
-  plus a Boolean checker of the orderly discipline for concrete traces (non-vacuity examples).
+  Lemmas for C15: without a timeout nothing ever arms a deadline and serving never stops by itself (under the
+  `Serial` discipline only); at most one open listener per address, so closing the served listener frees the
+  address; plus Boolean deciders of the `Serial` / `Orderly` disciplines for concrete traces (non-vacuity and
+  necessity examples).
 -/
 import VarlinkProofs.Lemmas.LifecycleMain
 namespace Varlink.Life
@@ -48,46 +49,75 @@ theorem forall_modify {α} {P : α → Prop} {l : List α} {j : Nat} {f : α →
 
 theorem noTmo_step {w w' : World} {a : Label} (h : NoTmo w) (hrel : Rel w a w')
     (hsp : ∀ kind tmo addr, a = .spawn kind tmo addr → tmo = false) : NoTmo w' := by
-  obtain ⟨hc, hl⟩ := h
+  obtain ⟨hc, hls⟩ := h
   cases hrel
   case spawn kind tmo addr =>
-    refine ⟨forall_append hc ⟨hsp _ _ _ rfl, by cases kind <;> simp [firstPc]⟩, hl⟩
-  case listenOk k c a hk hpc ha hu =>
-    exact ⟨forall_set hc ⟨(hc k c hk).1, by simp⟩, forall_append hl rfl⟩
+    refine ⟨forall_append hc ⟨hsp _ _ _ rfl, by cases kind <;> simp [firstPc]⟩, hls⟩
+  case bindRefused k c hk hpc hr =>
+    exact ⟨forall_set hc ⟨(hc k c hk).1, by simp⟩, hls⟩
+  case bindParseBad k c hk hpc hr ha =>
+    exact ⟨forall_set hc ⟨(hc k c hk).1, by simp⟩, hls⟩
+  case bindBusy k c a hk hpc hr ha hu =>
+    exact ⟨forall_set hc ⟨(hc k c hk).1, by simp⟩, hls⟩
+  case bindOk k c a hk hpc hr ha hu hkd =>
+    exact ⟨forall_set hc ⟨(hc k c hk).1, by simp⟩, forall_append hls rfl⟩
+  case listenOk k c a hk hpc hr ha hu hkd =>
+    exact ⟨forall_set hc ⟨(hc k c hk).1, by simp⟩, forall_append hls rfl⟩
+  case readNone k c hk hpc hl =>
+    exact ⟨forall_set hc ⟨(hc k c hk).1, by simp⟩, hls⟩
+  case readSome k c l hk hpc hl =>
+    exact ⟨forall_set hc ⟨(hc k c hk).1, by simp⟩, hls⟩
   case loopGo k c hk hpc hr =>
-    refine ⟨forall_set hc ⟨(hc k c hk).1, ?_⟩, hl⟩
+    refine ⟨forall_set hc ⟨(hc k c hk).1, ?_⟩, hls⟩
     simp [(hc k c hk).1]
-  case refreshOk k c f hk hpc hl' ho => exact absurd hpc (hc k c hk).2
-  case refreshClosed k c f hk hpc hl' ho => exact absurd hpc (hc k c hk).2
+  case loopStop k c hk hpc hr =>
+    exact ⟨forall_set hc ⟨(hc k c hk).1, by simp⟩, hls⟩
+  case refreshNil k c hk hpc hl =>
+    exact absurd hpc (hc k c hk).2
+  case refreshOk k c f hk hpc hl ho =>
+    exact absurd hpc (hc k c hk).2
+  case refreshClosed k c f hk hpc hl ho =>
+    exact absurd hpc (hc k c hk).2
+  case acceptNil k c hk hpc hl =>
+    exact ⟨forall_set hc ⟨(hc k c hk).1, by simp⟩, hls⟩
+  case acceptConn k c l i hk hpc hl ho hf =>
+    exact ⟨forall_set hc ⟨(hc k c hk).1, by simp⟩, hls⟩
+  case acceptClosed k c l hk hpc hl ho =>
+    exact ⟨forall_set hc ⟨(hc k c hk).1, by simp⟩, hls⟩
+  case count k c hk hpc =>
+    exact ⟨forall_set hc ⟨(hc k c hk).1, by simp⟩, hls⟩
+  case startHandler k c hk hpc =>
+    exact ⟨forall_set hc ⟨(hc k c hk).1, by simp⟩, hls⟩
+  case timeoutIdle k c hk hpc h0 =>
+    exact ⟨forall_set hc ⟨(hc k c hk).1, by simp⟩, hls⟩
+  case timeoutBusy k c hk hpc h0 =>
+    exact ⟨forall_set hc ⟨(hc k c hk).1, by simp⟩, hls⟩
+  case errRunning k c hk hpc hr =>
+    exact ⟨forall_set hc ⟨(hc k c hk).1, by simp⟩, hls⟩
+  case errStopped k c hk hpc hr =>
+    exact ⟨forall_set hc ⟨(hc k c hk).1, by simp⟩, hls⟩
   case teardown k c hk hpc =>
     refine ⟨?_, ?_⟩
     · simp only [setCall_calls, teardownShared_calls]
       exact forall_set hc ⟨(hc k c hk).1, by simp⟩
     · simp only [setCall_lsnrs, teardownShared]
       cases w.lst with
-      | none => exact hl
-      | some f => exact forall_modify hl (fun x hx => hx)
+      | none => exact hls
+      | some f => exact forall_modify hls (fun x hx => hx)
+  case waitDone k c hk hpc hwg =>
+    exact ⟨forall_set hc ⟨(hc k c hk).1, by simp⟩, hls⟩
+  case expire k c l hk hpc hl ho harm =>
+    exact ⟨forall_set hc ⟨(hc k c hk).1, by simp⟩, hls⟩
   case shutdown =>
     refine ⟨by rw [stepShutdown_calls]; exact hc, ?_⟩
     simp only [stepShutdown]
     cases w.lst with
-    | none => exact hl
-    | some f => exact forall_modify hl (fun x hx => hx)
+    | none => exact hls
+    | some f => exact forall_modify hls (fun x hx => hx)
   case wgDone i x co hi hp hco hwg =>
-    exact ⟨forall_set hc (hc _ co hco), hl⟩
-  case ctxCancel k c hk => exact ⟨forall_set hc (hc k c hk), hl⟩
-  case expire k c l hk hpc hl' ho harm => exact ⟨forall_set hc ⟨(hc k c hk).1, by simp⟩, hl⟩
-  all_goals first
-    | exact ⟨hc, hl⟩
-    | (rename_i k c hk _ _ _ _; exact ⟨forall_set hc ⟨(hc k c hk).1, by simp⟩, hl⟩)
-    | (rename_i k c hk _ _ _; exact ⟨forall_set hc ⟨(hc k c hk).1, by simp⟩, hl⟩)
-    | (rename_i k c hk _ _; exact ⟨forall_set hc ⟨(hc k c hk).1, by simp⟩, hl⟩)
-    | (rename_i k c hk _; exact ⟨forall_set hc ⟨(hc k c hk).1, by simp⟩, hl⟩)
-    | (rename_i k c hk; exact ⟨forall_set hc ⟨(hc k c hk).1, by simp⟩, hl⟩)
-    | (rename_i k c _ hk _ _ _; exact ⟨forall_set hc ⟨(hc k c hk).1, by simp⟩, hl⟩)
-    | (rename_i k c _ hk _ _; exact ⟨forall_set hc ⟨(hc k c hk).1, by simp⟩, hl⟩)
-    | (rename_i k c _ _ hk _ _ _ _; exact ⟨forall_set hc ⟨(hc k c hk).1, by simp⟩, hl⟩)
-    | skip
+    exact ⟨forall_set hc (hc _ co hco), hls⟩
+  case ctxCancel k c hk => exact ⟨forall_set hc (hc k c hk), hls⟩
+  all_goals exact ⟨hc, hls⟩
 
 def goodRet (c : Call) : Prop :=
   c.ret = none ∨ c.ret = some .errRunning ∨ c.ret = some .errParse ∨ c.ret = some .errListen ∨
@@ -95,8 +125,8 @@ def goodRet (c : Call) : Prop :=
 
 /-- facts about a call while nobody shuts the service down and nobody uses a timeout -/
 structure ServingC (w : World) (c : Call) : Prop where
-  storeOpen : c.pc = .store → ∃ l, c.l = some l ∧ isOpen w l = true
-  loop : loopPc c.pc = true → w.running = true ∧ c.pc ≠ .errOther ∧ c.pc ≠ .errTimeout
+  loop : loopPc c.pc = true → w.running = true ∧ c.pc ≠ .errOther ∧ c.pc ≠ .errTimeout ∧
+    ∃ l, c.l = some l ∧ isOpen w l = true
   ret : goodRet c
 
 structure Serving (w : World) : Prop where
@@ -119,22 +149,20 @@ theorem isOpen_setDeadlineL (w : World) (f : Nat) (b : Bool) (l : Nat) : isOpen 
   | none => rfl
   | some x => by_cases h : f = l <;> simp [h]
 
-theorem active_of_pc {c : Call} (h : c.pc = .store ∨ loopPc c.pc = true) : c.active = true := by
-  rcases h with h | h
-  · simp [Call.active, h]
-  · cases hp : c.pc <;> simp [hp, loopPc] at h <;> simp [Call.active, hp]
+theorem active_of_loopPc {c : Call} (h : loopPc c.pc = true) : c.active = true := by
+  cases hp : c.pc <;> simp [hp, loopPc] at h <;> simp [Call.active, hp]
 
 theorem ServingC.of_eq {w w' : World} {c : Call} (h : ServingC w c) (hr : w'.running = w.running)
     (hl : w'.lsnrs = w.lsnrs) : ServingC w' c := by
-  obtain ⟨s1, s2, s3⟩ := h
-  refine ⟨fun hp => ?_, fun hp => (by rw [hr]; exact s2 hp), s3⟩
-  obtain ⟨l, h1, h2⟩ := s1 hp
-  exact ⟨l, h1, by simpa [isOpen, hl] using h2⟩
+  obtain ⟨s2, s3⟩ := h
+  refine ⟨fun hp => ?_, s3⟩
+  obtain ⟨r1, r2, r3, l, h1, h2⟩ := s2 hp
+  exact ⟨by rw [hr]; exact r1, r2, r3, l, h1, by simpa [isOpen, hl] using h2⟩
 
-theorem Serving.setCall {w w' : World} (h : Serving w) (ho : OInv w) {k : Nat} {c c' : Call} (hk : w.calls[k]? = some c)
+theorem Serving.setCall {w w' : World} (h : Serving w) (ho : One w) {k : Nat} {c c' : Call} (hk : w.calls[k]? = some c)
     (hcalls : w'.calls = w.calls.set k c')
     (hlst : ∀ l, w'.lst = some l → isOpen w' l = true)
-    (hother : (w'.running = w.running ∧ ∀ l, isOpen w l = true → isOpen w' l = true) ∨ c.active = true)
+    (hother : ((w.running = true → w'.running = true) ∧ ∀ l, isOpen w l = true → isOpen w' l = true) ∨ c.active = true)
     (hown : ServingC w' c') : Serving w' := by
   refine ⟨hlst, ?_⟩
   intro j cj hj
@@ -144,26 +172,28 @@ theorem Serving.setCall {w w' : World} (h : Serving w) (ho : OInv w) {k : Nat} {
     simp only [lt_of_getElem? hk, if_true, Option.some.injEq] at hj
     subst hj; exact hown
   · simp only [hkj, if_false] at hj
-    obtain ⟨s1, s2, s3⟩ := h.call j cj hj
+    obtain ⟨s2, s3⟩ := h.call j cj hj
     rcases hother with ⟨hr, hop⟩ | hact
-    · refine ⟨fun hp => ?_, fun hp => ?_, s3⟩
-      · obtain ⟨l, hl, hol⟩ := s1 hp; exact ⟨l, hl, hop l hol⟩
-      · rw [hr]; exact s2 hp
-    · have hina : ¬ (cj.pc = .store ∨ loopPc cj.pc = true) := by
+    · refine ⟨fun hp => ?_, s3⟩
+      obtain ⟨r1, r2, r3, l, h1, h2⟩ := s2 hp
+      exact ⟨hr r1, r2, r3, l, h1, hop l h2⟩
+    · have hina : ¬ (loopPc cj.pc = true) := by
         intro hp
-        exact hkj (ho.one _ _ _ _ hk hj hact (active_of_pc hp))
-      exact ⟨fun hp => absurd (Or.inl hp) hina, fun hp => absurd (Or.inr hp) hina, s3⟩
+        exact hkj (ho _ _ _ _ hk hj hact (active_of_loopPc hp))
+      exact ⟨fun hp => absurd hp hina, s3⟩
 
 theorem Serving.sameCalls {w w' : World} (h : Serving w) (hc : w'.calls = w.calls) (hr : w'.running = w.running)
     (hl : w'.lst = w.lst) (hop : ∀ l, isOpen w l = true → isOpen w' l = true) : Serving w' := by
   refine ⟨fun l hl' => hop l (h.lstOpen l (by rw [← hl]; exact hl')), ?_⟩
   intro j cj hj
   rw [hc] at hj
-  obtain ⟨s1, s2, s3⟩ := h.call j cj hj
-  exact ⟨fun hp => (by obtain ⟨l, hl1, hl2⟩ := s1 hp; exact ⟨l, hl1, hop l hl2⟩), fun hp => (by rw [hr]; exact s2 hp), s3⟩
+  obtain ⟨s2, s3⟩ := h.call j cj hj
+  refine ⟨fun hp => ?_, s3⟩
+  obtain ⟨r1, r2, r3, l, h1, h2⟩ := s2 hp
+  exact ⟨by rw [hr]; exact r1, r2, r3, l, h1, hop l h2⟩
 
 
-theorem serving_step {w w' : World} {a : Label} (h : Serving w) (ho : OInv w) (hn : NoTmo w) (hrel : Rel w a w')
+theorem serving_step {w w' : World} {a : Label} (h : Serving w) (hone : One w) (hn : NoTmo w) (hrel : Rel w a w')
     (hns : a ≠ .shutdown) : Serving w' := by
   have keepOpen : ∀ l, isOpen w l = true → isOpen w l = true := fun _ h => h
   cases hrel
@@ -177,111 +207,100 @@ theorem serving_step {w w' : World} {a : Label} (h : Serving w) (ho : OInv w) (h
     · cases hh : j - w.calls.length with
       | zero =>
         simp only [hh, List.getElem?_cons_zero, Option.some.injEq] at hj; subst hj
-        exact ⟨fun hp => (by cases kind <;> simp [firstPc] at hp), fun hp => (by cases kind <;> simp [firstPc, loopPc] at hp),
-          Or.inl rfl⟩
+        exact ⟨fun hp => (by cases kind <;> simp [firstPc, loopPc] at hp), Or.inl rfl⟩
       | succ n => simp [hh] at hj
   case shutdown => exact absurd rfl hns
   case bindRefused k c hk hpc hr =>
-    obtain ⟨s1, s2, s3⟩ := h.call k c hk
-    exact h.setCall ho hk rfl h.lstOpen (Or.inl ⟨rfl, keepOpen⟩)
-      ⟨fun hp => (by cases hp), fun hp => (by simp [loopPc] at hp), Or.inr (Or.inl rfl)⟩
-  case bindPass k c hk hpc hr =>
-    obtain ⟨s1, s2, s3⟩ := h.call k c hk
-    exact h.setCall ho hk rfl h.lstOpen (Or.inl ⟨rfl, keepOpen⟩)
-      ⟨fun hp => (by cases hp), fun hp => (by simp [loopPc] at hp), s3⟩
-  case parseBad k c hk hpc ha =>
-    exact h.setCall ho hk rfl h.lstOpen (Or.inl ⟨rfl, keepOpen⟩)
-      ⟨fun hp => (by cases hp), fun hp => (by simp [loopPc] at hp), Or.inr (Or.inr (Or.inl rfl))⟩
-  case parseOk k c a hk hpc ha =>
-    obtain ⟨s1, s2, s3⟩ := h.call k c hk
-    exact h.setCall ho hk rfl h.lstOpen (Or.inl ⟨rfl, keepOpen⟩)
-      ⟨fun hp => (by cases hp), fun hp => (by simp [loopPc] at hp), s3⟩
-  case listenBusy k c a hk hpc ha hu =>
-    exact h.setCall ho hk rfl h.lstOpen (Or.inl ⟨rfl, keepOpen⟩)
-      ⟨fun hp => (by cases hp), fun hp => (by simp [loopPc] at hp), Or.inr (Or.inr (Or.inr (Or.inl rfl)))⟩
-  case listenOk k c a hk hpc ha hu =>
-    obtain ⟨s1, s2, s3⟩ := h.call k c hk
-    refine h.setCall ho hk rfl (fun l hl => isOpen_append w _ l (h.lstOpen l hl))
-      (Or.inl ⟨rfl, fun l hl => isOpen_append w _ l hl⟩) ⟨fun _ => ⟨w.lsnrs.length, rfl, ?_⟩, fun hp => (by simp [loopPc] at hp), s3⟩
+    exact h.setCall hone hk rfl h.lstOpen (Or.inl ⟨id, keepOpen⟩)
+      ⟨fun hp => (by simp [loopPc] at hp), Or.inr (Or.inl rfl)⟩
+  case bindParseBad k c hk hpc hr ha =>
+    exact h.setCall hone hk rfl h.lstOpen (Or.inl ⟨id, keepOpen⟩)
+      ⟨fun hp => (by simp [loopPc] at hp), Or.inr (Or.inr (Or.inl rfl))⟩
+  case bindBusy k c a hk hpc hr ha hu =>
+    exact h.setCall hone hk rfl h.lstOpen (Or.inl ⟨id, keepOpen⟩)
+      ⟨fun hp => (by simp [loopPc] at hp), Or.inr (Or.inr (Or.inr (Or.inl rfl)))⟩
+  case bindOk k c a hk hpc hr ha hu hkd =>
+    refine h.setCall hone hk rfl (fun l hl => ?_) (Or.inl ⟨id, fun l hl => isOpen_append w _ l hl⟩)
+      ⟨fun hp => (by simp [loopPc] at hp), Or.inr (Or.inr (Or.inr (Or.inr (Or.inr ⟨hkd, rfl⟩))))⟩
+    simp only [setCall_lst, bound_lst, Option.some.injEq] at hl; subst hl
     simp [isOpen]
-  case storeBind k c hk hpc hkd =>
-    obtain ⟨s1, s2, s3⟩ := h.call k c hk
-    obtain ⟨l, hl, hol⟩ := s1 hpc
-    exact h.setCall ho hk rfl (fun l' hl' => by simp only [setCall_lst] at hl'; rw [hl] at hl'; cases hl'; exact hol)
-      (Or.inl ⟨rfl, keepOpen⟩)
-      ⟨fun hp => (by cases hp), fun hp => (by simp [loopPc] at hp), Or.inr (Or.inr (Or.inr (Or.inr (Or.inr ⟨hkd, rfl⟩))))⟩
-  case storeServe k c hk hpc hkd =>
-    obtain ⟨s1, s2, s3⟩ := h.call k c hk
-    obtain ⟨l, hl, hol⟩ := s1 hpc
-    exact h.setCall ho hk rfl (fun l' hl' => by simp only [setCall_lst] at hl'; rw [hl] at hl'; cases hl'; exact hol)
-      (Or.inl ⟨rfl, keepOpen⟩)
-      ⟨fun hp => (by cases hp), fun hp => (by simp [loopPc] at hp), s3⟩
+  case listenOk k c a hk hpc hr ha hu hkd =>
+    obtain ⟨s1, s3⟩ := h.call k c hk
+    refine h.setCall hone hk rfl (fun l hl => ?_) (Or.inl ⟨fun _ => rfl, fun l hl => isOpen_append w _ l hl⟩)
+      ⟨fun _ => ⟨rfl, (by simp), (by simp), w.lsnrs.length, rfl, ?_⟩, s3⟩
+    · have hl2 : some w.lsnrs.length = some l := hl
+      simp only [Option.some.injEq] at hl2; subst hl2
+      simp [isOpen]
+    · simp [isOpen]
   case readNone k c hk hpc hl =>
-    exact h.setCall ho hk rfl h.lstOpen (Or.inl ⟨rfl, keepOpen⟩)
-      ⟨fun hp => (by cases hp), fun hp => (by simp [loopPc] at hp), Or.inr (Or.inr (Or.inr (Or.inr (Or.inl rfl))))⟩
+    exact h.setCall hone hk rfl h.lstOpen (Or.inl ⟨id, keepOpen⟩)
+      ⟨fun hp => (by simp [loopPc] at hp), Or.inr (Or.inr (Or.inr (Or.inr (Or.inl rfl))))⟩
   case readSome k c l hk hpc hl =>
-    obtain ⟨s1, s2, s3⟩ := h.call k c hk
-    exact h.setCall ho hk rfl h.lstOpen (Or.inl ⟨rfl, keepOpen⟩)
-      ⟨fun hp => (by cases hp), fun hp => (by simp [loopPc] at hp), s3⟩
-  case setRunning k c hk hpc =>
-    obtain ⟨s1, s2, s3⟩ := h.call k c hk
-    exact h.setCall ho hk rfl h.lstOpen (Or.inr (by simp [Call.active, hpc]))
-      ⟨fun hp => (by cases hp), fun _ => ⟨rfl, (by simp), (by simp)⟩, s3⟩
+    obtain ⟨s1, s3⟩ := h.call k c hk
+    exact h.setCall hone hk rfl h.lstOpen (Or.inl ⟨fun _ => rfl, keepOpen⟩)
+      ⟨fun _ => ⟨rfl, (by simp), (by simp), l, rfl, h.lstOpen l hl⟩, s3⟩
   case loopGo k c hk hpc hr =>
-    obtain ⟨s1, s2, s3⟩ := h.call k c hk
+    obtain ⟨s1, s3⟩ := h.call k c hk
+    have s2 := s1 (by simp [hpc, loopPc])
     have htm := (hn.calls k c hk).1
-    exact h.setCall ho hk rfl h.lstOpen (Or.inl ⟨rfl, keepOpen⟩)
-      ⟨fun hp => (by simp [htm] at hp), fun _ => ⟨hr, (by simp [htm]), (by simp [htm])⟩, s3⟩
+    exact h.setCall hone hk rfl h.lstOpen (Or.inl ⟨id, keepOpen⟩)
+      ⟨fun _ => ⟨s2.1, (by simp [htm]), (by simp [htm]), s2.2.2.2⟩, s3⟩
   case loopStop k c hk hpc hr =>
     have := ((h.call k c hk).loop (by simp [hpc, loopPc])).1
     rw [hr] at this; cases this
-  case refreshNil k c hk hpc hl => exact absurd hpc (hn.calls k c hk).2
-  case refreshOk k c f hk hpc hl ho' => exact absurd hpc (hn.calls k c hk).2
-  case refreshClosed k c f hk hpc hl ho' => exact absurd hpc (hn.calls k c hk).2
+  case refreshNil k c hk hpc hl =>
+    exact absurd hpc (hn.calls k c hk).2
+  case refreshOk k c f hk hpc hl ho =>
+    exact absurd hpc (hn.calls k c hk).2
+  case refreshClosed k c f hk hpc hl ho =>
+    exact absurd hpc (hn.calls k c hk).2
   case acceptNil k c hk hpc hl =>
-    have := ((ho.own k c hk).loopL (by simp [hpc, loopPc])).2
-    rw [hl] at this; cases this
-  case acceptConn k c l i hk hpc hl ho' hf =>
-    obtain ⟨s1, s2, s3⟩ := h.call k c hk
-    exact h.setCall ho hk rfl h.lstOpen (Or.inl ⟨rfl, keepOpen⟩)
-      ⟨fun hp => (by cases hp), fun _ => ⟨(s2 (by simp [hpc, loopPc])).1, (by simp), (by simp)⟩, s3⟩
-  case acceptClosed k c l hk hpc hl ho' =>
-    have hlo := ((ho.own k c hk).loopL (by simp [hpc, loopPc])).1
-    have := h.lstOpen l (by rw [← hlo]; exact hl)
-    rw [ho'] at this; cases this
+    obtain ⟨l, hl', _⟩ := ((h.call k c hk).loop (by simp [hpc, loopPc])).2.2.2
+    rw [hl] at hl'; cases hl'
+  case acceptConn k c l i hk hpc hl ho hf =>
+    obtain ⟨s1, s3⟩ := h.call k c hk
+    have s2 := s1 (by simp [hpc, loopPc])
+    exact h.setCall hone hk rfl h.lstOpen (Or.inl ⟨id, keepOpen⟩) ⟨fun _ => ⟨s2.1, (by simp), (by simp), s2.2.2.2⟩, s3⟩
+  case acceptClosed k c l hk hpc hl ho =>
+    obtain ⟨l', hl', ho'⟩ := ((h.call k c hk).loop (by simp [hpc, loopPc])).2.2.2
+    rw [hl] at hl'; cases hl'; rw [ho] at ho'; cases ho'
   case count k c hk hpc =>
-    obtain ⟨s1, s2, s3⟩ := h.call k c hk
-    exact h.setCall ho hk rfl h.lstOpen (Or.inl ⟨rfl, keepOpen⟩)
-      ⟨fun hp => (by cases hp), fun _ => ⟨(s2 (by simp [hpc, loopPc])).1, (by simp), (by simp)⟩, s3⟩
+    obtain ⟨s1, s3⟩ := h.call k c hk
+    have s2 := s1 (by simp [hpc, loopPc])
+    exact h.setCall hone hk rfl h.lstOpen (Or.inl ⟨id, keepOpen⟩) ⟨fun _ => ⟨s2.1, (by simp), (by simp), s2.2.2.2⟩, s3⟩
   case startHandler k c hk hpc =>
-    obtain ⟨s1, s2, s3⟩ := h.call k c hk
-    exact h.setCall ho hk rfl h.lstOpen (Or.inl ⟨rfl, keepOpen⟩)
-      ⟨fun hp => (by cases hp), fun _ => ⟨(s2 (by simp [hpc, loopPc])).1, (by simp), (by simp)⟩, s3⟩
-  case timeoutIdle k c hk hpc h0 => exact absurd hpc ((h.call k c hk).loop (by simp [hpc, loopPc])).2.2
-  case timeoutBusy k c hk hpc h0 => exact absurd hpc ((h.call k c hk).loop (by simp [hpc, loopPc])).2.2
-  case errRunning k c hk hpc hr => exact absurd hpc ((h.call k c hk).loop (by simp [hpc, loopPc])).2.1
-  case errStopped k c hk hpc hr => exact absurd hpc ((h.call k c hk).loop (by simp [hpc, loopPc])).2.1
+    obtain ⟨s1, s3⟩ := h.call k c hk
+    have s2 := s1 (by simp [hpc, loopPc])
+    exact h.setCall hone hk rfl h.lstOpen (Or.inl ⟨id, keepOpen⟩) ⟨fun _ => ⟨s2.1, (by simp), (by simp), s2.2.2.2⟩, s3⟩
+  case timeoutIdle k c hk hpc h0 =>
+    exact absurd hpc ((h.call k c hk).loop (by simp [hpc, loopPc])).2.2.1
+  case timeoutBusy k c hk hpc h0 =>
+    exact absurd hpc ((h.call k c hk).loop (by simp [hpc, loopPc])).2.2.1
+  case errRunning k c hk hpc hr =>
+    exact absurd hpc ((h.call k c hk).loop (by simp [hpc, loopPc])).2.1
+  case errStopped k c hk hpc hr =>
+    exact absurd hpc ((h.call k c hk).loop (by simp [hpc, loopPc])).2.1
   case teardown k c hk hpc =>
-    obtain ⟨s1, s2, s3⟩ := h.call k c hk
-    exact h.setCall (c' := { c with pc := .waiting }) ho hk (by simp only [setCall_calls, teardownShared_calls])
+    obtain ⟨s1, s3⟩ := h.call k c hk
+    exact h.setCall (c' := { c with pc := .waiting }) hone hk (by simp only [setCall_calls, teardownShared_calls])
       (fun l hl => by simp at hl) (Or.inr (by simp [Call.active, hpc]))
-      ⟨fun hp => (by cases hp), fun hp => (by simp [loopPc] at hp), s3⟩
+      ⟨fun hp => (by simp [loopPc] at hp), s3⟩
   case waitDone k c hk hpc hwg =>
-    obtain ⟨s1, s2, s3⟩ := h.call k c hk
-    exact h.setCall ho hk rfl h.lstOpen (Or.inl ⟨rfl, keepOpen⟩)
-      ⟨fun hp => (by cases hp), fun hp => (by simp [loopPc] at hp), s3⟩
-  case expire k c l hk hpc hl ho' harm =>
+    obtain ⟨s1, s3⟩ := h.call k c hk
+    exact h.setCall hone hk rfl h.lstOpen (Or.inl ⟨id, keepOpen⟩)
+      ⟨fun hp => (by simp [loopPc] at hp), s3⟩
+  case expire k c l hk hpc hl ho harm =>
     exfalso
     simp only [isArmed] at harm
     cases hx : w.lsnrs[l]? with
     | none => simp [hx] at harm
     | some x => rw [hx] at harm; simp only [] at harm; rw [hn.lsnrs l x hx] at harm; cases harm
   case wgDone i x co hi hp hco hwg =>
-    obtain ⟨s1, s2, s3⟩ := h.call _ co hco
-    exact h.setCall ho hco rfl h.lstOpen (Or.inl ⟨rfl, keepOpen⟩) ⟨s1, s2, s3⟩
+    obtain ⟨s2, s3⟩ := h.call _ co hco
+    exact h.setCall hone hco rfl h.lstOpen (Or.inl ⟨id, keepOpen⟩) ⟨s2, s3⟩
   case ctxCancel k c hk =>
-    obtain ⟨s1, s2, s3⟩ := h.call k c hk
-    exact h.setCall ho hk rfl h.lstOpen (Or.inl ⟨rfl, keepOpen⟩) ⟨s1, s2, s3⟩
+    obtain ⟨s2, s3⟩ := h.call k c hk
+    exact h.setCall hone hk rfl h.lstOpen (Or.inl ⟨id, keepOpen⟩) ⟨s2, s3⟩
   all_goals exact h.sameCalls rfl rfl rfl keepOpen
 
 
@@ -324,14 +343,23 @@ theorem lsnr_back {w w' : World} {a : Label} (h : Rel w a w') {l : Nat} {x' : Ls
       · exact h'
     have hlt := lt_of_getElem? hx'
     cases h
-    case listenOk k c a0 hk hpc ha hu =>
-      simp only [setCall_lsnrs] at hx' hlt
+    case bindOk k c a0 hk hpc hr ha hu hkd =>
+      simp only [setCall_lsnrs, bound_lsnrs] at hx' hlt
       rw [List.getElem?_append_right hge] at hx'
       cases hh : l - w.lsnrs.length with
       | zero =>
         simp only [hh, List.getElem?_cons_zero, Option.some.injEq] at hx'; subst hx'
         exact ⟨by omega, hu⟩
       | succ n => simp [hh] at hx'
+    case listenOk k c a0 hk hpc hr ha hu hkd =>
+      simp only [setCall_lsnrs] at hx' hlt
+      have hx2 : (w.lsnrs ++ [{ addr := a0 }])[l]? = some x' := hx'
+      rw [List.getElem?_append_right hge] at hx2
+      cases hh : l - w.lsnrs.length with
+      | zero =>
+        simp only [hh, List.getElem?_cons_zero, Option.some.injEq] at hx2; subst hx2
+        exact ⟨by omega, hu⟩
+      | succ n => simp [hh] at hx2
     all_goals
       exfalso
       first
@@ -376,21 +404,17 @@ theorem addr_free_after_close {w : World} (hu : UniqueOpen w) {l : Nat} {x : Lsn
 /-! ### the discipline without Shutdown and without timeouts -/
 
 def Quiet (w : World) (a : Label) : Prop :=
-  Orderly w a ∧ a ≠ .shutdown ∧ ∀ kind tmo addr, a = .spawn kind tmo addr → tmo = false
+  Serial w a ∧ a ≠ .shutdown ∧ ∀ kind tmo addr, a = .spawn kind tmo addr → tmo = false
 
-theorem quiet_invs {w : World} (h : Reach Quiet init w) : OInv w ∧ NoTmo w ∧ Serving w := by
-  have hO : ∀ {w : World}, Reach Quiet init w → OReach w := fun h => h.mono (fun _ _ hq => hq.1)
-  refine Reach.induct (fun w => OInv w ∧ NoTmo w ∧ Serving w) ⟨oinv_init, ?_, ?_⟩ ?_ h
+theorem quiet_invs {w : World} (h : Reach Quiet init w) : One w ∧ NoTmo w ∧ Serving w := by
+  refine Reach.induct (fun w => One w ∧ NoTmo w ∧ Serving w) ⟨one_init, ?_, ?_⟩ ?_ h
   · exact ⟨fun k c hk => by simp [init] at hk, fun l x hl => by simp [init] at hl⟩
   · exact ⟨fun l hl => by simp [init] at hl, fun k c hk => by simp [init] at hk⟩
   · intro w a w' hr ⟨ho, hn, hs⟩ hq hstep
-    obtain ⟨_, hv, _⟩ := oreach_invs (hO hr)
     have hrel := rel_of_step hstep
-    exact ⟨oinv_step ho hv hstep hq.1, noTmo_step hn hrel hq.2.2, serving_step hs ho hn hrel hq.2.1⟩
+    exact ⟨one_step ho hrel hq.1, noTmo_step hn hrel hq.2.2, serving_step hs ho hn hrel hq.2.1⟩
 
-/-! ### a Boolean checker of the orderly discipline, for concrete traces -/
-
-def idleB (w : World) : Bool := w.calls.all (fun c => !c.active)
+/-! ### Boolean checkers of the disciplines, for concrete traces -/
 
 def othersIdleB (w : World) (k : Nat) : Bool :=
   (List.range w.calls.length).all fun j =>
@@ -399,17 +423,19 @@ def othersIdleB (w : World) (k : Nat) : Bool :=
                | none => true)
 
 def orderlyB (w : World) : Label → Bool
-  | .spawn kind _ _ => kind != .doListen || idleB w
   | .call k =>
     match w.calls[k]? with
-    | some c => c.pc != .bindCheck || w.running || othersIdleB w k
+    | some c => (c.pc != .bindCheck || w.running || othersIdleB w k) && (c.pc != .readLst || othersIdleB w k)
     | none => true
   | _ => true
 
-theorem idle_of_B {w : World} (h : idleB w = true) : Idle w := by
-  intro j cj hj
-  have := List.all_eq_true.mp h cj (List.mem_of_getElem? hj)
-  simpa using this
+def serialB (w : World) : Label → Bool
+  | .call k =>
+    match w.calls[k]? with
+    | some c => (c.pc != .bindCheck || c.kind == .bind || w.running || othersIdleB w k) &&
+                (c.pc != .readLst || othersIdleB w k)
+    | none => true
+  | _ => true
 
 theorem othersIdle_of_B {w : World} {k : Nat} (h : othersIdleB w k = true) : OthersIdle w k := by
   intro j cj hj hne
@@ -421,61 +447,138 @@ theorem othersIdle_of_B {w : World} {k : Nat} (h : othersIdleB w k = true) : Oth
 
 theorem orderly_of_B {w : World} {a : Label} (h : orderlyB w a = true) : Orderly w a := by
   cases a <;> simp only [orderlyB, Orderly] at h ⊢
-  case spawn kind tmo addr =>
-    intro hk
-    simp only [Bool.or_eq_true, bne_iff_ne, ne_eq] at h
-    rcases h with h | h
-    · exact absurd hk h
-    · exact idle_of_B h
   case call k =>
-    intro c hk hpc
-    simp only [hk, Bool.or_eq_true, bne_iff_ne, ne_eq] at h
-    rcases h with (h | h) | h
-    · exact absurd hpc h
-    · exact Or.inl h
-    · exact Or.inr (othersIdle_of_B h)
+    intro c hk
+    simp only [hk, Bool.and_eq_true, Bool.or_eq_true, bne_iff_ne, ne_eq] at h
+    refine ⟨fun hpc => ?_, fun hpc => ?_⟩
+    · rcases h.1 with (h1 | h1) | h1
+      · exact absurd hpc h1
+      · exact Or.inl h1
+      · exact Or.inr (othersIdle_of_B h1)
+    · rcases h.2 with h1 | h1
+      · exact absurd hpc h1
+      · exact othersIdle_of_B h1
 
-/-- run a trace, checking the discipline at every step -/
-def runB (w : World) : List Label → Option World
+theorem serial_of_B {w : World} {a : Label} (h : serialB w a = true) : Serial w a := by
+  cases a <;> simp only [serialB, Serial] at h ⊢
+  case call k =>
+    intro c hk
+    simp only [hk, Bool.and_eq_true, Bool.or_eq_true, bne_iff_ne, ne_eq, beq_iff_eq] at h
+    refine ⟨fun hpc hkd => ?_, fun hpc => ?_⟩
+    · rcases h.1 with ((h1 | h1) | h1) | h1
+      · exact absurd hpc h1
+      · exact absurd h1 hkd
+      · exact Or.inl h1
+      · exact Or.inr (othersIdle_of_B h1)
+    · rcases h.2 with h1 | h1
+      · exact absurd hpc h1
+      · exact othersIdle_of_B h1
+
+theorem othersIdleB_of {w : World} {k : Nat} (h : OthersIdle w k) : othersIdleB w k = true := by
+  apply List.all_eq_true.mpr
+  intro j hj
+  have hlt := List.mem_range.mp hj
+  have hj' : w.calls[j]? = some w.calls[j] := by simp [hlt]
+  by_cases e : j = k
+  · simp [e]
+  · simp [hj', h j _ hj' e]
+
+theorem serialB_of {w : World} {a : Label} (h : Serial w a) : serialB w a = true := by
+  cases a <;> simp only [serialB] <;> try rfl
+  case call k =>
+    cases hk : w.calls[k]? with
+    | none => rfl
+    | some c =>
+      simp only [Serial] at h
+      obtain ⟨h1, h2⟩ := h c hk
+      simp only [Bool.and_eq_true, Bool.or_eq_true, bne_iff_ne, ne_eq, beq_iff_eq]
+      constructor
+      · by_cases hp : c.pc = .bindCheck
+        · by_cases hkd : c.kind = .bind
+          · exact Or.inl (Or.inl (Or.inr hkd))
+          · rcases h1 hp hkd with r | r
+            · exact Or.inl (Or.inr r)
+            · exact Or.inr (othersIdleB_of r)
+        · exact Or.inl (Or.inl (Or.inl hp))
+      · by_cases hp : c.pc = .readLst
+        · exact Or.inr (othersIdleB_of (h2 hp))
+        · exact Or.inl hp
+
+theorem orderlyB_of {w : World} {a : Label} (h : Orderly w a) : orderlyB w a = true := by
+  cases a <;> simp only [orderlyB] <;> try rfl
+  case call k =>
+    cases hk : w.calls[k]? with
+    | none => rfl
+    | some c =>
+      simp only [Orderly] at h
+      obtain ⟨h1, h2⟩ := h c hk
+      simp only [Bool.and_eq_true, Bool.or_eq_true, bne_iff_ne, ne_eq]
+      constructor
+      · by_cases hp : c.pc = .bindCheck
+        · rcases h1 hp with r | r
+          · exact Or.inl (Or.inr r)
+          · exact Or.inr (othersIdleB_of r)
+        · exact Or.inl (Or.inl hp)
+      · by_cases hp : c.pc = .readLst
+        · exact Or.inr (othersIdleB_of (h2 hp))
+        · exact Or.inl hp
+
+/-- the Boolean checkers decide the disciplines -/
+theorem serial_iff_B {w : World} {a : Label} : Serial w a ↔ serialB w a = true := ⟨serialB_of, serial_of_B⟩
+theorem orderly_iff_B {w : World} {a : Label} : Orderly w a ↔ orderlyB w a = true := ⟨orderlyB_of, orderly_of_B⟩
+
+/-- run a trace, checking a discipline at every step -/
+def runC (B : World → Label → Bool) (w : World) : List Label → Option World
   | [] => some w
   | a :: as =>
-    if orderlyB w a then
+    if B w a then
       match step w a with
-      | some w' => runB w' as
+      | some w' => runC B w' as
       | none => none
     else none
 
-theorem reach_of_runB {w0 : World} : ∀ (ls : List Label) {w : World}, runB w0 ls = some w → Reach Orderly w0 w := by
+theorem reach_of_runC {B : World → Label → Bool} {P : World → Label → Prop} (hB : ∀ w a, B w a = true → P w a)
+    {w0 : World} : ∀ (ls : List Label) {w : World}, runC B w0 ls = some w → Reach P w0 w := by
   intro ls
   induction ls generalizing w0 with
-  | nil => intro w h; simp only [runB, Option.some.injEq] at h; subst h; exact .refl
+  | nil => intro w h; simp only [runC, Option.some.injEq] at h; subst h; exact .refl
   | cons a as ih =>
     intro w h
-    simp only [runB] at h
+    simp only [runC] at h
     split at h
     · rename_i hb
       cases hs : step w0 a with
       | none => simp [hs] at h
       | some w1 =>
         simp only [hs] at h
-        exact Reach.trans (.step .refl (orderly_of_B hb) hs) (ih h)
+        exact Reach.trans (.step .refl (hB _ _ hb) hs) (ih h)
     · cases h
 
+/-- run a trace under the orderly discipline -/
+def runB (w : World) (ls : List Label) : Option World := runC orderlyB w ls
+/-- run a trace under the serial discipline -/
+def runS (w : World) (ls : List Label) : Option World := runC serialB w ls
+
+theorem reach_of_runB {w0 : World} (ls : List Label) {w : World} (h : runB w0 ls = some w) : Reach Orderly w0 w :=
+  reach_of_runC (fun _ _ => orderly_of_B) ls h
+
+theorem reach_of_runS {w0 : World} (ls : List Label) {w : World} (h : runS w0 ls = some w) : Reach Serial w0 w :=
+  reach_of_runC (fun _ _ => serial_of_B) ls h
 
 def quietLabelB : Label → Bool
   | .shutdown => false
   | .spawn _ tmo _ => !tmo
   | _ => true
 
-theorem quiet_of_runB {w0 : World} : ∀ (ls : List Label) {w : World}, runB w0 ls = some w →
+theorem quiet_of_runS {w0 : World} : ∀ (ls : List Label) {w : World}, runS w0 ls = some w →
     ls.all quietLabelB = true → Reach Quiet w0 w := by
   intro ls
   induction ls generalizing w0 with
-  | nil => intro w h _; simp only [runB, Option.some.injEq] at h; subst h; exact .refl
+  | nil => intro w h _; simp only [runS, runC, Option.some.injEq] at h; subst h; exact .refl
   | cons a as ih =>
     intro w h hall
     simp only [List.all_cons, Bool.and_eq_true] at hall
-    simp only [runB] at h
+    simp only [runS, runC] at h
     split at h
     · rename_i hb
       cases hs : step w0 a with
@@ -483,7 +586,7 @@ theorem quiet_of_runB {w0 : World} : ∀ (ls : List Label) {w : World}, runB w0 
       | some w1 =>
         simp only [hs] at h
         have hq : Quiet w0 a := by
-          refine ⟨orderly_of_B hb, ?_, ?_⟩
+          refine ⟨serial_of_B hb, ?_, ?_⟩
           · intro e; rw [e] at hall; simp [quietLabelB] at hall
           · intro kind tmo addr e; rw [e] at hall; simpa [quietLabelB] using hall.1
         exact Reach.trans (.step .refl hq hs) (ih h hall.2)
